@@ -232,7 +232,7 @@ def _iterator_impl_bodies(crate):
     return [b for b in crate.bodies if b.raw.get("impl_trait") == "std::iter::Iterator"]
 
 
-@rule("R03.3", 3, "the CLI feeds one translator in argument order: constructed before the loop, no dropping/reordering adaptor", ["C03"])
+@rule("R03.3", 3, "the CLI feeds one translator in argument order: constructed before the loop, no dropping/reordering adaptor", ["C03", "C08"])
 def r03_3(ctx):
     import cliview
     import r_cli
@@ -396,6 +396,10 @@ def _bounded_by_constants(lib, cm, body, op, depth=0, seen=None):
                 a = _bounded_by_constants(lib, cm, body, tr.origin[2]["args"][0], depth + 1, seen)
                 b_ = _bounded_by_constants(lib, cm, body, tr.origin[2]["args"][1], depth + 1, seen)
                 return (a[0] or b_[0]), a[1] + b_[1]
+            return _bounded_by_constants(lib, cm, body, tr.origin[2]["args"][0], depth + 1, seen)
+        # a checked integer conversion and its unwrapping keep the value: `u64::try_from(n).unwrap_or(u64::MAX)` is
+        # n whenever n fits, and a value bounded by small constants always fits (the fallback is never taken)
+        if (f.get("trait") in ("std::convert::TryFrom", "std::convert::TryInto", "std::convert::From", "std::convert::Into") or f.get("def", "").startswith("std::result::Result::<T, E>::unwrap") or f.get("def") == "std::result::Result::<T, E>::expect") and tr.origin[2]["args"]:
             return _bounded_by_constants(lib, cm, body, tr.origin[2]["args"][0], depth + 1, seen)
         # `x.checked_sub(y).filter(|&n| n > 0)`: a filter keeps the value or drops it
         if f.get("def") in ("std::option::Option::<T>::filter",) and tr.origin[2]["args"]:
